@@ -201,7 +201,11 @@ def build_cases(ctx, plans, table):
     resolve_searchmoves(ctx, plans, table)
     cases = []
     for pl in plans:
-        cases.append(Case(pl.request(), pl.stream, oracle=session_oracle(pl, table), agree=sessions_agree))
+        if getattr(pl, 'nomodel', False):
+            # expectation comes from a corpus validated by the verified evaluator: the (slow) search model is not run
+            cases.append(Case(pl.request(), pl.stream, model=None, oracle=session_oracle(pl, table)))
+        else:
+            cases.append(Case(pl.request(), pl.stream, oracle=session_oracle(pl, table), agree=sessions_agree))
     return cases
 
 
@@ -360,6 +364,46 @@ def mate_stream(ctx, plans, table):
             pl.go(['depth', str(2 * int(n) - 1)])
             pl.meta[-1]['expect_mate'] = int(n)
             plans.append(pl)
+
+
+def mate_corpus_stream(ctx, plans, table, n, flip_stream_name=None):
+    """corpus/mates_generated.txt: `fen N` — the side to move forces mate in N (N = 2, 3); every entry was validated by the
+    verified minimax evaluator when the corpus was built (tools/build_mate_corpus.py), so the expectation does not depend on
+    the engine or on the search model.  Searched at depth 2N-1, position and colour-flipped twin."""
+    ents = [l.rsplit(' ', 1) for l in corpus('mates_generated.txt')]
+    ents = [(ftok(f), int(k)) for f, k in ents if k.isdigit()]
+    if len(ents) > n:
+        ents = ctx.rng.sample(ents, n)
+    for f, k in ents:
+        for q in (f, flip_fen(f)):
+            idx = table.add(q, [])
+            pl = Plan(flip_stream_name or 'forced-mates-corpus')
+            pl.nomodel = True
+            pl.pos(q, [], idx)
+            pl.go(['depth', str(2 * k - 1)])
+            pl.meta[-1]['expect_score'] = 'mate%d' % k
+            plans.append(pl)
+    ctx.notes.append('validated forced-mate corpus positions searched: %d (x2 with flips)' % len(ents))
+
+
+def mated_corpus_stream(ctx, plans, table, n, maxk=2, flip_stream_name=None):
+    """corpus/mated_generated.txt: `fen K` — the side to move is mated in K whatever it plays (validated by the verified
+    evaluator, tools/build_mated_corpus.py).  A depth 2K (and 2K+1 when <= 3) search must report `mate -K`."""
+    ents = [l.rsplit(' ', 1) for l in corpus('mated_generated.txt')]
+    ents = [(ftok(f), int(k)) for f, k in ents if k.isdigit() and int(k) <= maxk]
+    if len(ents) > n:
+        ents = ctx.rng.sample(ents, n)
+    for f, k in ents:
+        for q in (f, flip_fen(f)):
+            for d in ([2 * k, 2 * k + 1] if k == 1 else [2 * k]):
+                idx = table.add(q, [])
+                pl = Plan(flip_stream_name or 'forced-mated-corpus')
+                pl.nomodel = True
+                pl.pos(q, [], idx)
+                pl.go(['depth', str(d)])
+                pl.meta[-1]['expect_score'] = 'mate-%d' % k
+                plans.append(pl)
+    ctx.notes.append('validated being-mated corpus positions searched: %d (x2 with flips)' % len(ents))
 
 
 def position_keys(root, moves):
@@ -570,6 +614,75 @@ def minimax_post(plans_ref):
     return post
 
 
+def tt_stream(ctx, plans, table, n):
+    """C08 / invariant correspondence: after a fixed-depth search the REAL transposition table is read back (hook
+    `verif_tt_entry`) for every position within depth-1 plies of the root; tt_post checks the invariant `TTValid` under which
+    Props/C08 `ab_tt_ok` is proved: an entry (draft e, value v, bound) of position p satisfies
+    exact: mm(p,e) = v, lower: v <= mm(p,e), upper: mm(p,e) <= v, with mm from the verified evaluator."""
+    pos = pick_positions(ctx, n)
+    for p in pos[:n]:
+        npieces = sum(1 for ch in p.split('_')[0] if ch.isalpha())
+        d = 3 if npieces <= 8 else 2
+        idx = table.add(p, [])
+        pl = Plan('tt-invariant')
+        pl.nomodel = True
+        pl.pos(p, [], idx)
+        pl.go(['depth', str(d)])
+        pl.simple('tt', str(d - 1))
+        plans.append(pl)
+
+
+def tt_post(per_search=24):
+    def post(ctx, cases, impl):
+        vs = []
+        items = []
+        for c, a in zip(cases, impl):
+            if c.stream != 'tt-invariant':
+                continue
+            parts = a.split(' ; ')
+            if len(parts) != 3:
+                continue
+            root = c.req.split(' ')[2]
+            d = int(c.req.split(' ; ')[1].split(' ')[2])
+            ents = [t.split(':') for t in parts[2].split(' ') if t.startswith('T:')]
+            # all entries of ply <= 1 and a sample of the deeper ones
+            shallow = [e for e in ents if e[1] == '-' or ',' not in e[1]]
+            deep = [e for e in ents if e not in shallow]
+            for e in shallow + ctx.rng.sample(deep, per_search):
+                path = [] if e[1] == '-' else e[1].split(',')
+                items.append((c.req, root, d, path, int(e[2]), int(e[3]), e[4], int(e[5])))
+        if not items:
+            return vs
+        fens = core.run_model(['spec:makeall %s %s' % (root, ' '.join(core.hex_token(m) for m in path)) for _, root, _, path, _, _, _, _ in items])
+        reqs = ['spec-search %s %d' % (f[3:], it[4]) if f.startswith('ok ') and it[4] >= 1 else 'spec:terminal x' for f, it in zip(fens, items)]
+        uniq = list(dict.fromkeys(reqs))
+        ans = dict(zip(uniq, core.run_model(uniq)))
+        nchk = {'E': 0, 'L': 0, 'U': 0}
+        for (req, root, d, path, draft, value, kind, mvv), f, r in zip(items, fens, reqs):
+            a = ans[r]
+            what = 'entry draft %d value %d %s for the position after %s' % (draft, value, {'E': 'exact', 'L': 'lower bound', 'U': 'upper bound'}[kind], ','.join(path) or '(root)')
+            if draft > d - len(path):
+                vs.append({'kind': 'property', 'stream': 'tt-invariant', 'input': req, 'impl_output': what,
+                           'why': 'table entry deeper than the draft the position was searched with (SameDraft, assumed by ab_tt_ok for d <= 3)'})
+                continue
+            if mvv != value:
+                vs.append({'kind': 'property', 'stream': 'tt-invariant', 'input': req, 'impl_output': what,
+                           'why': 'stored move carries value %d, entry value %d: an exact hit would return a different value' % (mvv, value)})
+                continue
+            if not (a.startswith('cp') or a.startswith('mate')):
+                continue
+            sc = a.split(' ')[0]
+            mm = int(sc[2:]) if sc.startswith('cp') else (10 ** 9 if not sc.startswith('mate-') else -10 ** 9)
+            nchk[kind] += 1
+            ok = (mm == value) if kind == 'E' else (value <= mm) if kind == 'L' else (mm <= value)
+            if not ok:
+                vs.append({'kind': 'property', 'stream': 'tt-invariant', 'input': req, 'impl_output': what, 'spec_output': a,
+                           'why': 'transposition-table %s but the exact minimax value of that position at draft %d is %s: a later probe of this entry changes a search result' % (what, draft, sc)})
+        ctx.notes.append('transposition-table entries of the real table checked against TTValid (verified minimax): exact %d, lower %d, upper %d' % (nchk['E'], nchk['L'], nchk['U']))
+        return vs
+    return post
+
+
 def flip_post(ctx, cases, impl):
     vs = []
     ans = {}
@@ -593,6 +706,85 @@ def flip_post(ctx, cases, impl):
             vs.append({'kind': 'property', 'stream': 'flip-twin-search', 'input': req, 'impl_output': '%s vs flipped %s' % (sc1, sc2),
                        'why': 'search scores of a position and its colour-flipped twin differ'})
     ctx.notes.append('flip-twin searches compared: %d' % n)
+    return vs
+
+
+def console_cases(ctx, n):
+    """C16 / output syntax: engine-to-GUI messages are formatted by the REAL ConsoleUciTx and by the Lean model
+    (Model/Console.lean, about which `render_accepts` is proved); messages that satisfy the theorem's decidable hypothesis
+    `WFMsg` must additionally be accepted by the independent protocol grammar (Spec/UciOut.lean, op spec:uciout)."""
+    rng = ctx.rng
+    files, ranks = 'abcdefgh', '12345678'
+
+    def mv():
+        m = rng.pick(files) + rng.pick(ranks) + rng.pick(files) + rng.pick(ranks)
+        return m + (rng.pick('qrbn') if rng.chance(1, 5) else '')
+
+    def mvs(allow_empty):
+        if allow_empty and rng.chance(1, 12):
+            return 'empty'
+        return ','.join(mv() for _ in range(1 + rng.below(6)))
+
+    def num(bits=20):
+        return str(rng.below(1 << rng.pick([1, 4, 10, bits, 31])))
+
+    def text():
+        alpha = 'abcXYZ 019-_.:;!?\'"#()'
+        return ''.join(rng.pick(alpha) for _ in range(1 + rng.below(20)))
+    cases = []
+    for i in range(n):
+        k = rng.below(10)
+        wf = True
+        if k == 0:
+            b = mv() if rng.chance(5, 6) else '-'
+            req = 'console bestmove %s %s' % (b, mv() if (b != '-' and rng.chance(2, 3)) else '-')
+        elif k == 1:
+            req = 'console ' + rng.pick(['uciok', 'readyok', 'registration checking', 'registration ok', 'registration error',
+                                         'copyprotection checking', 'copyprotection ok', 'copyprotection error'])
+        elif k == 2:
+            t = text().strip() or 'x'
+            req = 'console id %s %s' % (rng.pick(['name', 'author']), core.hex_token(t))
+        else:
+            a = ['-'] * 17
+            present = [rng.chance(1, 2 if k < 8 else 6) for _ in range(17)]
+            for j in (0, 1, 5, 8, 9, 11, 12, 13):
+                if present[j]:
+                    a[j] = num()
+            if present[2]:
+                a[2] = num(31)
+            if present[3]:
+                a[3] = str(rng.below(1 << rng.pick([4, 20, 40, 63])))
+            if present[10]:
+                a[10] = str(rng.below(1 << rng.pick([4, 20, 40, 63])))
+            if present[4]:
+                a[4] = mvs(True)
+            if present[6]:
+                v = rng.below(40000) - 20000
+                a[6] = rng.pick(['cp%d' % v, 'cp%d:lower' % v, 'cp%d:upper' % v, 'mate%d' % (rng.below(60) - 30)])
+            if present[7]:
+                a[7] = mv()
+            if present[14]:
+                a[14] = mvs(True)
+            if present[15]:
+                a[15] = '%d:%s' % (rng.below(64), mvs(True))
+            if present[16]:
+                a[16] = core.hex_token(text())
+            wf = 'empty' not in a[4] and 'empty' not in a[14] and not a[15].endswith(':empty')
+            req = 'console info ' + ' '.join(a)
+        cases.append(Case(req, 'console-format' if wf else 'console-format-empty-list'))
+    return cases
+
+
+def console_post(ctx, cases, impl):
+    vs = []
+    idx = [i for i, c in enumerate(cases) if c.stream == 'console-format' and impl[i].startswith('x:')]
+    if idx:
+        ans = core.run_model(['spec:uciout %s' % impl[i] for i in idx])
+        for i, a in zip(idx, ans):
+            if a != 'accept':
+                vs.append({'kind': 'property', 'stream': 'console-format', 'input': cases[i].req, 'impl_output': bytes.fromhex(impl[i][2:]).decode('utf-8', 'replace'),
+                           'why': 'the line printed for a well-formed message is not a UCI engine-to-GUI message (protocol grammar Spec/UciOut)'})
+    ctx.notes.append('printed lines checked against the protocol grammar: %d' % len(idx))
     return vs
 
 
@@ -789,8 +981,11 @@ def register(PROPS):
                            binary_sessions=lambda c: c.scale(12, 300))
     PROPS['C07'] = dict(modules=['Inkayaku.Props.C07', 'Inkayaku.Props.C07Final'], theorems=['Inkayaku.C07.' + n for n in 'go_exactly_one_bestmove bestmove_legal every_iteration_legal root_move_from_buffer nolegal_null depth1_not_interrupted depth1_completes go_answers_legal_move genPseudo_length_lt'.split()] + ['Inkayaku.Search.boardLaws'], cases=c07c, post=c07p, anchors=ENGINE_ANCHORS)
     c08c, c08p = make_prop([lambda c, pl, t: depth_stream(c, pl, t, c.scale(150, 4000)), mate_stream,
-                            lambda c, pl, t: multi_cycle_stream(c, pl, t, c.scale(10, 300))], minimax=True)
-    PROPS['C08'] = dict(modules=['Inkayaku.Props.C08'], theorems=['Inkayaku.C08.' + n for n in 'quiescence_clamp quiescence_ok ab_ok root_exact order_irrelevant best_move_optimal ab_tt_ok root_exact_tt engine_order_is_permutation search_eq_mm specValue_eq_mm specValue_order_irrelevant specBestMoves_eq_optimal search_best_move_optimal mate_found mate_real'.split()], cases=c08c, post=c08p, anchors=ENGINE_ANCHORS)
+                            lambda c, pl, t: mate_corpus_stream(c, pl, t, c.scale(120, 1000)),
+                            lambda c, pl, t: mated_corpus_stream(c, pl, t, c.scale(60, 1000)),
+                            lambda c, pl, t: tt_stream(c, pl, t, c.scale(40, 600)),
+                            lambda c, pl, t: multi_cycle_stream(c, pl, t, c.scale(10, 300))], minimax=True, extra_post=tt_post())
+    PROPS['C08'] = dict(modules=['Inkayaku.Props.C08', 'Inkayaku.Props.C08Sim', 'Inkayaku.Props.C16Pv'], theorems=['Inkayaku.C08Sim.' + n for n in 'quiescence_sim repetition_inert fuel_adequate negamax_node_sim negamax_eq_spec go_eq_spec go_eq_spec_le2'.split()] + ['Inkayaku.C16Pv.mate_pv'] + ['Inkayaku.C08.' + n for n in 'quiescence_clamp quiescence_ok ab_ok root_exact order_irrelevant best_move_optimal ab_tt_ok root_exact_tt engine_order_is_permutation search_eq_mm specValue_eq_mm specValue_order_irrelevant specBestMoves_eq_optimal search_best_move_optimal mate_found mate_real'.split()], cases=c08c, post=c08p, anchors=ENGINE_ANCHORS)
     c09c, c09p = make_prop([lambda c, pl, t: interrupt_stream(c, pl, t, c.scale(24, 300), c.scale(90, 250))])
     PROPS['C09'] = dict(modules=['Inkayaku.Props.C09'], theorems=['Inkayaku.C09.' + n for n in 'quiescence_board negamax_board deepen_board go_preserves_board go_preserves_inv session_preserves_board next_go_searches_same_position go_one_bestmove bestmove_from_last_completed_iteration bestmove_none_iff_no_completed_iteration'.split()] + ['Inkayaku.Search.boardLaws', 'Inkayaku.Search.unmake_make_of_generated', 'Inkayaku.Search.make_wf', 'Inkayaku.BoardCongr.make_congr', 'Inkayaku.BoardCongr.genPseudo_congr'], cases=c09c, post=c09p, anchors=ENGINE_ANCHORS)
     c16c, c16p = make_prop([lambda c, pl, t: multi_cycle_stream(c, pl, t, c.scale(60, 1500)),
@@ -798,7 +993,13 @@ def register(PROPS):
                             lambda c, pl, t: promotion_stream(c, pl, t, c.scale(30, 600)),
                             lambda c, pl, t: limits_stream(c, pl, t, c.scale(40, 800))],
                            binary_sessions=lambda c: c.scale(25, 600))
-    PROPS['C16'] = dict(modules=['Inkayaku.Props.C16'], theorems=['Inkayaku.C16.' + n for n in 'info_depth_mono info_nodes_mono info_time_mono info_time_is_clock bestmove_is_pv0_ponder_is_pv1 null_bestmove_no_ponder'.split()], cases=c16c, post=c16p, anchors=ENGINE_ANCHORS)
+    c16all = lambda ctx: c16c(ctx) + console_cases(ctx, ctx.scale(1500, 40000))
+    c16post = lambda ctx, cs, impl: c16p(ctx, cs, impl) + console_post(ctx, cs, impl)
+    PROPS['C16'] = dict(modules=['Inkayaku.Props.C16', 'Inkayaku.Props.C16Console', 'Inkayaku.Props.C16Pv'],
+                        theorems=['Inkayaku.C16.' + n for n in 'info_depth_mono info_nodes_mono info_time_mono info_time_is_clock bestmove_is_pv0_ponder_is_pv1 null_bestmove_no_ponder'.split()]
+                        + ['Inkayaku.C16Console.' + n for n in 'render_accepts render_single_line empty_pv_rejected'.split()]
+                        + ['Inkayaku.C16Pv.' + n for n in 'pv_legal_line pv_legal_line_rules mate_pv'.split()],
+                        cases=c16all, post=c16post, anchors=ENGINE_ANCHORS)
     # C10: history part (props.py) + engine-level repetition / fifty-move sessions
     e10c, e10p = make_prop([lambda c, pl, t: repetition_stream(c, pl, t, c.scale(25, 500)), fifty_explicit,
                             lambda c, pl, t: fifty_stream(c, pl, t, c.scale(40, 800))])
@@ -806,7 +1007,9 @@ def register(PROPS):
     PROPS['C10']['cases'] = lambda ctx: base10(ctx) + e10c(ctx)
     PROPS['C10']['post'] = e10p
     # C11: static evaluation (props.py) + searches of flip twins
-    e11c, e11p = make_prop([lambda c, pl, t: flip_stream(c, pl, t, c.scale(60, 1500))], extra_post=flip_post)
+    e11c, e11p = make_prop([lambda c, pl, t: flip_stream(c, pl, t, c.scale(60, 1500)),
+                            lambda c, pl, t: mated_corpus_stream(c, pl, t, c.scale(40, 1000), maxk=1),
+                            lambda c, pl, t: mate_corpus_stream(c, pl, t, c.scale(20, 200))], extra_post=flip_post)
     base11, post11 = PROPS['C11']['cases'], PROPS['C11']['post']
     PROPS['C11']['cases'] = lambda ctx: base11(ctx) + e11c(ctx)
     PROPS['C11']['post'] = lambda ctx, cs, impl: post11(ctx, cs, impl) + e11p(ctx, cs, impl)
